@@ -55,6 +55,9 @@ def gen(rng, tier, n_quick=60, n_thorough=1500):
             from .. import layouts as L
             c["Text"] = L.layout(rng, s)
             c["kind"] += "+layout"
+        if i % 5 == 2 and cases:
+            # the solution is looked at again after another structure (the previous one of this run) was solved in the same process
+            c["HoldText"] = cases[-1]["Text"]
         cases.append(c)
     return cases
 
